@@ -26,7 +26,7 @@ from . import rules_order as RO, rules_tower as RT, rules_plugin as PL, rules_pa
 STATIC = ("This check decides structural clauses that are necessary conditions of the property, for ALL paths / thread pairs / table rows of the "
           "compiled program (MIR of /repo's working tree); it does not decide the behavioural statement as a whole. ")
 
-prop("C01", [RO.rule_OR1, RO.rule_OR2_watcher, RO.rule_OR2_responder, RO.rule_CR, LK.rule_AT1, RO.rule_EF1, RO.rule_EF3, SQ.rule_SQ4, RO.rule_TX, LK.rule_AT6],
+prop("C01", [RO.rule_OR1, RO.rule_OR2_watcher, RO.rule_OR2_responder, RO.rule_CR, LK.rule_AT1, RO.rule_EF1, RO.rule_EF3, SQ.rule_SQ4, RO.rule_TX, LK.rule_AT6, SQ.rule_SQ1],
      STATIC + "Decided: listener order Gatekeeper>Watcher>Responder (OR1); the breach pipeline is complete on every path — cache update, DB intersection, "
      "decrypt with the matched dispute's txid, hand-over to the responder, node decision, tracker iff accepted, failures and only failures to the delete list, "
      "no early loop exit (OR2w/OR2r); no accepted-but-unwatched window against the block thread (AT1); cache window 6 / index 100 / locator 16 bytes (EF3); "
